@@ -35,6 +35,8 @@ type w5s3 struct {
 	uploads map[string]*w5upload
 	seq     int
 	minPart int64
+	// part uploads on the wire right now (a probe fires when two overlap)
+	partsInFlight int
 }
 
 func newW5S3(st *sims3.Store) *w5s3 {
@@ -88,23 +90,44 @@ func (a *w5s3) CreateMultipartUpload(ctx context.Context, in *s3.CreateMultipart
 }
 
 func (a *w5s3) UploadPart(ctx context.Context, in *s3.UploadPartInput, _ ...func(*s3.Options)) (*s3.UploadPartOutput, error) {
-	body, err := io.ReadAll(in.Body)
-	if err != nil {
-		return nil, err
-	}
 	u := a.uploads[aws.ToString(in.UploadId)]
 	if u == nil || u.completed || u.aborted {
 		return nil, &w5apiErr{"NoSuchUpload", "the multipart upload does not exist"}
 	}
-	sum := md5.Sum(body)
-	etag := `"` + hex.EncodeToString(sum[:]) + `"`
 	n := aws.ToInt32(in.PartNumber)
-	err = a.op(ctx, "mp.part", fmt.Sprintf("%s#%d", u.key, n), func() {
+	var etag string
+	var rerr error
+	a.partsInFlight++
+	if a.partsInFlight > 1 {
+		simrt.Probe("w5.part-uploads-overlap")
+	}
+	defer func() { a.partsInFlight-- }()
+	var atCall []byte
+	if sk, ok := in.Body.(io.ReadSeeker); ok {
+		atCall, _ = io.ReadAll(sk)
+		_, _ = sk.Seek(0, io.SeekStart)
+	}
+	// the body is consumed while the request is on the wire, i.e. when the simulated transfer completes,
+	// not when the call is made: a caller that reuses its buffer too early sends something else
+	err := a.op(ctx, "mp.part", fmt.Sprintf("%s#%d", u.key, n), func() {
+		body, e := io.ReadAll(in.Body)
+		if e != nil {
+			rerr = e
+			return
+		}
+		if atCall != nil && string(atCall) != string(body) {
+			simrt.Probe("w5.part-body-changed-on-the-wire")
+		}
+		sum := md5.Sum(body)
+		etag = `"` + hex.EncodeToString(sum[:]) + `"`
 		u.parts[n] = body
 		u.etags[n] = etag
 	})
 	if err != nil {
 		return nil, err
+	}
+	if rerr != nil {
+		return nil, rerr
 	}
 	return &s3.UploadPartOutput{ETag: aws.String(etag)}, nil
 }
